@@ -298,6 +298,12 @@ fn pad(_: &mut ZooA, s: String) {
     rec(format!("pad[{s}]"));
 }
 
+/// A definition for the step without any text (an outline whose cell is empty yields one).
+#[when(regex = r"^\s*$")]
+fn blank(_: &mut ZooA) {
+    rec("blank()".into());
+}
+
 #[when(regex = r"^padnum:(.*)$")]
 fn padnum(_: &mut ZooA, n: u32) {
     rec(format!("padnum({n})"));
@@ -590,6 +596,7 @@ pub fn entries() -> Vec<Entry> {
         }),
         e(0, Given, "yes_no", |t| (t.starts_with("yes") || t.ends_with("no")).then(|| Expect::Call("yes_no()".into()))),
         e(0, Given, "pad", |t| t.strip_prefix("pad:").map(|s| Expect::Call(format!("pad[{s}]")))),
+        e(0, When, "blank", |t| t.trim().is_empty().then(|| Expect::Call("blank()".into()))),
         e(0, When, "padnum", |t| {
             t.strip_prefix("padnum:").map(|s| {
                 if fits::<u32>(s) {
